@@ -82,6 +82,7 @@ func (vm *VM) Run(program *Program, env interface{}) (out interface{}, err error
 		vm.pp = vm.ip
 		vm.ip++
 		op := vm.bytecode[vm.pp]
+		vm.simStep(op)
 
 		switch op {
 
